@@ -23,7 +23,54 @@ EXPLANATION = ("Technique level 'other': the TLA+ module fixes the abstract doma
                "values outside the instantiated valuations.")
 
 
+def replay(ctx):
+    """bin/check C15 --replay out/C15/replay-*.json : re-run exactly that case on the real schemes (no evidence written)."""
+    d = json.load(open(ctx.replay))
+    rp = d.get("replay") or {}
+    strip = lambda h: {k: v for k, v in h.items() if k != "Hash"}
+    if "h1" in rp and "h2" in rp:
+        me = json.dumps(strip(rp["h1"]), sort_keys=True) == json.dumps(strip(rp["h2"]), sort_keys=True)
+        cases = [{"op": "pair", "base": 0, "field": rp.get("field", "replay"), "kind": rp.get("edit", "replay"), "h1": rp["h1"], "h2": rp["h2"],
+                  "must_equal": me, "exp_equal_design": me, "exp_equal_asis": me}]
+    elif "a" in rp and "b" in rp:
+        cases = [{"op": "sign", "item": rp["a"]}, {"op": "sign", "item": rp["b"]}]
+    elif "h1" in rp and "order" in rp:
+        cases = [{"op": "perm", "base": 0, "h1": rp["h1"], "orders": [rp["order"]]}]
+    elif "x" in rp and "y" in rp:
+        cases = [{"op": "serorder", "order": [rp["x"], rp["y"]]}]
+    else:
+        raise vlib.Inconclusive("replay file has no replayable case")
+    tin = ctx.path("cases.ndjson")
+    with open(tin, "w") as f:
+        for c in cases:
+            f.write(json.dumps(c) + "\n")
+    pkg = "tm/tmconsensus/tmconsensustest"
+    out = ctx.path("out.ndjson")
+    env = {"VERIF_IN": tin, "VERIF_OUT": out, "VERIF_TRACE": ctx.path("trace.ndjson"), "VERIF_SEED": str(ctx.seed),
+           "VERIF_VALUATIONS": "3" if ctx.quick() else "6", "VERIF_RANDOM": "0", "VERIF_TRACE_N": "0", "VERIF_PERM_REPS": "50"}
+    rc, o = ctx.go_test(pkg, "^TestVerifC15$", env=env, overlay=ctx.harness_overlay(pkg), timeout=900)
+    recs = vlib.read_ndjson(out)
+    if rc != 0 or not [r for r in recs if r.get("kind") == "summary"]:
+        raise vlib.Inconclusive("C15 replay harness failed rc=%s\n%s" % (rc, o[-2000:]))
+    return vlib_report(ctx, recs)
+
+
+def vlib_report(ctx, recs):
+    for r in recs:
+        if r.get("kind") == "violation":
+            ctx.violation(r["predicate"], r["site"], r["class"], r["what"], replay_obj=r.get("case"))
+    for k in ctx.known_seen:
+        print("KNOWN-FINDING: property=%s %s" % (ctx.pid, k["known"].get("what", k["what"])))
+    for v in ctx.violations:
+        print("VIOLATION property=%s replay=%s\n  %s" % (ctx.pid, v["replay"] or "-", v["what"]))
+    if not ctx.violations and not ctx.known_seen:
+        print("replayed case: every predicate held on the real code")
+    return 1 if ctx.violations else 0
+
+
 def run(ctx):
+    if ctx.replay:
+        return replay(ctx)
     quick = ctx.quick()
     # 1. design: serialization injective on the space (SigsBound=TRUE is the intended design; FALSE the as-is deviation,
     #    characterised exactly by KnownCollision)
